@@ -170,7 +170,7 @@ def _fresh(text):
     """cbmc wants a distinct bound-variable name per quantifier inside one function: ALLV(v, ...) -> ALLV(v17, ...)"""
     import re
     out, i, k = "", 0, [0]
-    pat = re.compile(r"ALL([VPWS])\((\w+), ")
+    pat = re.compile(r"ALL([VPWSK])\((\w+), ")
     while True:
         m = pat.search(text, i)
         if not m:
